@@ -14,7 +14,11 @@ def rand_quat(rng):
             return [x / n for x in q]
 
 
-def draw_rotation(rng, lattice=False):
+def draw_rotation(rng, lattice=False, small=False):
+    if small:
+        # a fraction of a degree about a coordinate axis (repeated, such steps add up; +a then -(a - small) leaves small)
+        seq = rng.choice("xyz")
+        return "from_euler", {"seq": seq if rng.random() < 0.5 else seq.upper(), "angles": rng.choice([0.4, 0.25, -0.3, 0.45]), "degrees": True}
     if lattice:
         # quarter and half turns about coordinate axes: the box maps onto itself, so
         # successive results land on the same mesh
@@ -86,6 +90,8 @@ class RotatorProfile(HeapProfile):
             "p_refuse": rng.choice([0.0, 0.1]),
             "lattice": rng.random() < 0.3,
             "p_bad": rng.choice([0.0, 0.1, 0.2]),
+            "small": rng.random() < 0.12,
+            "bign": rng.random() < 0.06,
         }
 
     def gen_op(self, rng, st):
@@ -145,7 +151,7 @@ class RotatorProfile(HeapProfile):
             return {"op": "Q.keep", "on": s, "out": out}
         if rm.nrot == 0 and rm.content and rm.content["t"] == "uniform" and rng.random() < 0.06:
             return {"op": "Q.rotate", "on": s, "method": "align_vector", "args": {}, "antiparallel": True, "sa": rng.choice([1.0, 2.0, 0.5]), "sb": rng.choice([1.0, 3.0])}
-        m, args = draw_rotation(rng, lattice=cfg.get("lattice", False) and rng.random() < 0.7)
+        m, args = draw_rotation(rng, lattice=cfg.get("lattice", False) and rng.random() < 0.7, small=cfg.get("small", False) and rng.random() < 0.7)
         if rng.random() < cfg.get("p_bad", 0.0):
             # a refused request between performed rotations (non-trivial rotation, so that
             # counting it would show in the next result)
@@ -161,6 +167,12 @@ class RotatorProfile(HeapProfile):
                 n = n[:2]
             return {"op": "Q.rotate_bad", "on": s, "method": m, "args": args, "n": n, "why": why, "fault": "rejected_args"}
         o = {"op": "Q.rotate", "on": s, "method": m, "args": args}
+        if cfg.get("bign") and not st.extra.get("bign_done"):
+            # a target mesh above 2**16 cells whose cell count is no multiple of it (block-wise code paths, if any)
+            st.extra["bign_done"] = True
+            st.stats.probe("big_target_mesh")
+            o["n"] = rng.choice([[50, 40, 35], [48, 40, 40], [64, 40, 32]])
+            return o
         if rng.random() < 0.25:
             o["n"] = st.extra.setdefault("fixed_n", [rng.randint(2, 8) for _ in range(3)]) if rng.random() < 0.6 else [rng.randint(2, 8) for _ in range(3)]
         return o
